@@ -261,7 +261,7 @@ func cmdCheck(args []string) int {
 	pkgDirs := map[string]bool{}
 	for _, f := range files {
 		for _, d := range f.defs {
-			if d.Prop != prop {
+			if !d.hasProp(prop) {
 				continue
 			}
 			if d.Tier == "thorough" && *tier != "thorough" {
